@@ -687,6 +687,73 @@ def _parkroot_rule(chk, prog):
     chk.floor(rule, 2, n)
 
 
+def _payload_rule(chk, prog):
+    """A value handed to a parked reader of a thread channel leaves the channel's queue and travels in the message
+    (msg.argj).  janet_thread_chan_cb is the only place that holds it then: on every path that handles a READ message
+    the payload must go somewhere - delivered to the fiber (unpacked and scheduled), forwarded to another waiter, or
+    put back into the channel's items.  A path that just returns drops a sent value."""
+    rule = "C08-PAYLOAD"
+    chk.rule(rule, "janet_thread_chan_cb delivers, forwards or re-queues the payload of a read hand-off on every path")
+    fn = prog.tus["ev.c"].funcs.get("janet_thread_chan_cb")
+    if fn is None:
+        raise AnalysisBroken("janet_thread_chan_cb not found")
+    chk.analysed(fn)
+    pay = None
+    for x in fn.nodes:
+        if x.k == "vardecl" and x.kids and strip_casts(x.kids[0]).k == "mem" and strip_casts(x.kids[0]).field == "argj":
+            pay = x.name
+    if pay is None:
+        raise AnalysisBroken("janet_thread_chan_cb: payload variable (msg.argj) not found")
+    READS = ("JANET_CP_MODE_READ", "JANET_CP_MODE_CHOICE_READ")
+    readflags = set()
+    for x in fn.nodes:
+        if x.k == "vardecl" and x.kids and any(is_ref(y) and y.name in READS for y in x.kids[0].walk()):
+            readflags.add(x.name)
+
+    def uses(x):
+        if x.k == "call" and any(is_ref(y, pay) for a in x.args for y in a.walk()):
+            return True
+        if x.k == "asg" and x.kids[0].k == "mem" and x.kids[0].field == "argj" and any(is_ref(y, pay) for y in x.kids[1].walk()):
+            return True
+        return False
+
+    def transfer(st, x):
+        return st | {"used"} if uses(x) else st
+
+    def edge(st, blk, succ, cond, truth):
+        c = flow.compare_of(cond, truth)
+        if c is None:
+            return st
+        l, op, r = strip_casts(c[0]), c[1], (strip_casts(c[2]) if c[2] is not None else None)
+        if r is None and is_ref(l) and l.name in readflags:
+            if op == "!=":
+                return st | {"read"}
+            # the flag was computed from the mode tests taken on this very path
+            return None if "read" in st else st | {"notread"}
+        if r is not None and is_ref(r) and r.name in READS and op == "==":
+            return st | {"read"}
+        return st
+    IN, OUT, T = flow.forward_paths(fn, frozenset(), transfer, edge=edge)
+    n = 0
+    for b, kind in flow.exits(fn):
+        if b.id not in OUT:
+            continue
+        for ps in OUT[b.id]:
+            if "read" in ps:
+                n += 1
+        bad = [ps for ps in OUT[b.id] if "read" in ps and "used" not in ps]
+        chk.instance(rule)
+        if bad:
+            last = b.elems[-1] if b.elems else None
+            chk.violation(rule, "ev.c", fn.name, "payload:%s" % pay, last.loc if last is not None else fn.loc,
+                          "a path through janet_thread_chan_cb handles a read hand-off without delivering, forwarding or re-queueing "
+                          "`%s`: when the addressed reader has moved on and nobody else waits, the value that was sent is dropped" % pay)
+        else:
+            chk.ok(rule, "janet_thread_chan_cb: every read path consumes `%s`" % pay)
+    if n < 2:
+        raise AnalysisBroken("janet_thread_chan_cb: read paths not recognised (%d)" % n)
+
+
 def run(chk):   # noqa
     prog = Program.load("default")
     S = Summaries(prog)
@@ -697,3 +764,4 @@ def run(chk):   # noqa
     _refpair_rule(chk, prog)
     _msgrec_rule(chk, prog)
     _parkroot_rule(chk, prog)
+    _payload_rule(chk, prog)
